@@ -455,4 +455,56 @@ theorem http_prefixStable (P : HttpParams) : PrefixStable (http P) where
     · exact Or.inl hc
     · exact Or.inr ⟨n, hc, by simp; omega, hl⟩
 
+/-! ### valid streams raise no error (the hypothesis of the C02 theorems is met) -/
+
+/-- a well-formed HTTP message: the header block contains no separator (also not across its
+    end), Content-Length is the body length, the first line parses -/
+structure HttpWF (P : HttpParams) (m : Bytes × Bytes) : Prop where
+  sep : ∀ x, splitSep (m.1 ++ crlf2 ++ x) = some (m.1, x)
+  len : P.clen m.1 = some m.2.length
+  line : P.lineOk m.1 = true
+
+def httpEnc (m : Bytes × Bytes) : Bytes := m.1 ++ crlf2 ++ m.2
+
+theorem http_valid_noErr (P : HttpParams) (ms : List (Bytes × Bytes)) (h : ∀ m ∈ ms, HttpWF P m) :
+    drainAll (http P) (ms.flatMap httpEnc) = ⟨ms, [], none⟩ := by
+  apply drainAll_encoded (http_prefixStable P).prog httpEnc (by simp [http])
+  intro m hm x
+  obtain ⟨hsep, hlen, hline⟩ := h m hm
+  rw [http_msg_iff]
+  refine ⟨m.1, m.2 ++ x, m.2.length, ?_, hlen, by simp, hline, ?_, ?_⟩
+  · have := hsep (m.2 ++ x)
+    simpa [httpEnc, List.append_assoc] using this
+  · simp
+  · simp
+
+/-- a well-formed data-stream frame: 32-byte header whose size field counts header+payload -/
+structure DataWF (m : Bytes × Bytes) : Prop where
+  hlen : m.1.length = dataHeaderLength
+  size : be ((m.1.drop dataSizeOffset).take dataSizeWidth) = dataHeaderLength + m.2.length
+
+def dataEnc (m : Bytes × Bytes) : Bytes := m.1 ++ m.2
+
+theorem dataStream_valid_noErr (ms : List (Bytes × Bytes)) (h : ∀ m ∈ ms, DataWF m) :
+    drainAll dataStream (ms.flatMap dataEnc) = ⟨ms, [], none⟩ := by
+  have h1 : dataHeaderLength = 32 := rfl
+  apply drainAll_encoded dataStream_prefixStable.prog dataEnc (by simp [dataStream, h1])
+  intro m hm x
+  obtain ⟨hl, hsz⟩ := h m hm
+  obtain ⟨hd, pl⟩ := m
+  simp only at hl hsz
+  have e1 : dataEnc (hd, pl) ++ x = hd ++ (pl ++ x) := by simp [dataEnc]
+  have e2 : dataEnc (hd, pl) ++ x = (hd ++ pl) ++ x := by simp [dataEnc]
+  have hds : dsSize (dataEnc (hd, pl) ++ x) = dataHeaderLength + pl.length := by
+    rw [e1, dsSize_app hd _ (by omega)]
+    exact hsz
+  rw [dataStream_msg_iff, hds]
+  refine ⟨by rw [e1]; simp; omega, by rw [e1]; simp; omega, by omega, ?_, ?_⟩
+  · congr 1
+    · rw [e1, take_app _ (by omega), ← hl, List.take_length]
+    · rw [e2, take_app x (by simp; omega), ← hl, ← List.length_append, List.take_length]
+      simp
+  · rw [e2, drop_app x (by simp; omega), ← hl, ← List.length_append, List.drop_length]
+    simp
+
 end PyatvModel.C02
